@@ -12,7 +12,8 @@ CHECKS = {
     "C01": {
         "text": "For each concrete k in the bound table and every byte string (bytes 0x04-0xFF, length symbolic 0..=N) the solver shows that "
         "the real KmerGenerator yields exactly the oracle's valid windows, in order, with the base-4 forward code and the reverse-strand code, "
-        "and then None. Bit-precise over all 2^(8N) strings per instance; no induction beyond N.",
+        "and then None. Bit-precise over all 2^(8N) strings per instance. Second encoding: ONE INDUCTIVE STEP - from any state satisfying a functional invariant (proved "
+        "inductive, base case included) one next() returns exactly the next valid window with the right codes (and second = rev_comp(first)) - call histories of any length for sequences up to N.",
         "design_ref": "DESIGN.md section 3 / C01",
         "note": NOTE_COMMON + "Bounds: quick k in {1..5,15,16,30,31}+2 rotated, thorough every k in 1..=31; N = k+6 (k<=8) or k+3.",
         "technique": TECH,
